@@ -860,7 +860,15 @@ def run_case(c, Pm):
             if c['op'] == 'sum' and c['cls'] == 'Boolean':
                 kw['value'] = c.get('value', True)
             kw['builtins'] = bool(c.get('builtins'))
-            res['impl'] = observe(getattr(obj, c['op'])(**kw), Pm)
+            # every third operand is read-only, and no reduction writes into its operand: the values under the mask
+            # are what they were (seeded change C13-O: median(axis=) wrote its fill value through a view of the operand)
+            if (len(c['op']) + len(str(c['shape'])) + len(str(c['axis'])) + len(str(c['mask']))) % 3 == 0 and not obj.readonly:
+                obj = obj.as_readonly()
+            before = repr(expanded(obj))
+            out = observe(getattr(obj, c['op'])(**kw), Pm)
+            if repr(expanded(obj)) != before:
+                out = {'exc': ('OperandChanged', c['op'], 'the reduction changed the values or the mask of its operand')}
+            res['impl'] = out
         except Exception as e:       # noqa
             name, site = lib.exc_family(e)
             res['impl'] = {'exc': (name, site, str(e)[:120])}
